@@ -2,36 +2,25 @@ package c14
 
 import (
 	"fmt"
+	"os"
 	"testing"
 	"time"
 )
 
 func TestScratch(t *testing.T) {
-	t0 := time.Now()
-	lap := func(s string) { fmt.Printf("%-20s %v\n", s, time.Since(t0)); t0 = time.Now() }
-	fmt.Println(mvccThroughExecutor())
-	lap("probe")
-	n := newNode(variant{Quick: true}, false)
-	lap("newNode")
-	g := n.genesisDetail()
-	lap("genesisDetail")
-	n.mvccApply(true, g)
-	u := newUniverse()
-	u.addBlock(n.cfg, g)
-	lap("mvcc")
-	d := n.execute(n.build([]txSpec{{Kind: "transfer", From: 0, To: 2, Amount: 1e8, Fee: 1e5}}))
-	lap("execute")
-	u.addBlock(n.cfg, d)
-	s := n.snap(u)
-	lap("snap")
-	fmt.Println(len(s))
-	n.rawDump()
-	lap("rawDump")
-	set, err := n.localKVs(64, d)
-	_ = set
-	fmt.Println(err)
-	n.connect(d.Block)
-	lap("connect")
-	n.Close()
-	lap("close")
+	if os.Getenv("PROBE") != "" {
+		mvccThroughExecutor()
+	}
+	for i := 0; i < 4; i++ {
+		t0 := time.Now()
+		lap := func(s string) { fmt.Printf("%-20s %v\n", s, time.Since(t0)); t0 = time.Now() }
+		n := newNode(variant{Quick: true}, false)
+		lap("newNode")
+		d := n.execute(n.build([]txSpec{{Kind: "transfer", From: 0, To: 2, Amount: 1e8, Fee: 1e5}}))
+		lap("execute")
+		n.connect(d.Block)
+		lap("connect")
+		n.Close()
+		lap("close")
+	}
 }
